@@ -404,8 +404,7 @@ func (srv *Srv) clunk(req *SrvReq) {
 
 func (srv *Srv) clunkPost(req *SrvReq) {
 	if req.Rc != nil && req.Rc.Type == Rclunk && req.Fid != nil {
-		verifPoint("fid.release", req.Conn, req.Fid)
-		req.Fid.DecRef()
+		req.Fid.release()
 	}
 }
 
@@ -413,8 +412,7 @@ func (srv *Srv) remove(req *SrvReq) { (req.Conn.Srv.ops).(SrvReqOps).Remove(req)
 
 func (srv *Srv) removePost(req *SrvReq) {
 	if req.Rc != nil && req.Fid != nil {
-		verifPoint("fid.release", req.Conn, req.Fid)
-		req.Fid.DecRef()
+		req.Fid.release()
 	}
 }
 
